@@ -105,5 +105,21 @@ func VerifHVSDump(c module.Consensus) string {
 	return s
 }
 
+// VerifSigner returns the address that signed a vote or proposal (nil if the
+// signature does not recover).
+func VerifSigner(m Message) module.Address {
+	switch x := m.(type) {
+	case *VoteMessage:
+		if a := x.address(); a != nil {
+			return a
+		}
+	case *ProposalMessage:
+		if a := x.address(); a != nil {
+			return a
+		}
+	}
+	return nil
+}
+
 // VerifStepNames maps the step enumeration to the names used in the Coq model.
 func VerifStepCount() int { return int(stepCommit) + 1 }
